@@ -233,6 +233,9 @@ def run_scenario(sc: dict) -> dict:
             for op in script.get('fns', []):
                 kw['patch'].fns.append(make_fn(op))
                 holder.setdefault('fns', []).append(op)
+            # the requested content as of now: as_json_patch puts the patch's own value objects into the body it mutates,
+            # so a fn that changes a list in place also changes the Patch afterwards — snapshot before that happens
+            holder['content'] = copy.deepcopy(dict(kw['patch']))
             if script.get('raise'):
                 e = make_exc(script['raise'])
                 entry['exc'] = e
@@ -273,7 +276,7 @@ def run_scenario(sc: dict) -> dict:
     finally:
         loop.close()
     obs['log'] = log
-    obs['patch'] = copy.deepcopy(dict(holder['patch'])) if 'patch' in holder else {}
+    obs['patch'] = holder.get('content', {})
     obs['fns'] = list(holder.get('fns', []))
     obs['diff_calls'] = list(K.diff_calls)
     return obs
